@@ -154,13 +154,16 @@ func (c *GroupCoordinator) JoinGroup(ctx context.Context, req *kmsg.JoinGroupReq
 	} else if member.sessionTimeout == 0 {
 		member.sessionTimeout = defaultSessionTimeout
 	}
+	prevTopics := member.topics
 	member.topics = c.parseSubscriptionTopics(req.Protocols)
 	member.lastHeartbeat = time.Now()
 
 	if len(state.members) == 1 && state.state == groupStateEmpty {
 		state.leaderID = memberID
 		state.startRebalance(timeout)
-	} else if state.state == groupStateStable && !exists {
+	} else if state.state == groupStateStable && (!exists || !sameTopicSet(prevTopics, member.topics)) {
+		// A new member, or a known member whose subscription changed, invalidates
+		// the current assignment: the group has to rebalance.
 		state.startRebalance(timeout)
 	} else if state.state == groupStateEmpty {
 		state.startRebalance(timeout)
@@ -908,6 +911,23 @@ func memberSubscribes(member *memberState, topic string) bool {
 		}
 	}
 	return false
+}
+
+// sameTopicSet reports whether a and b name the same set of topics, ignoring
+// order and duplicates.
+func sameTopicSet(a, b []string) bool {
+	set := make(map[string]struct{}, len(a))
+	for _, t := range a {
+		set[t] = struct{}{}
+	}
+	seen := make(map[string]struct{}, len(b))
+	for _, t := range b {
+		if _, ok := set[t]; !ok {
+			return false
+		}
+		seen[t] = struct{}{}
+	}
+	return len(seen) == len(set)
 }
 
 func (c *GroupCoordinator) collectTopicPartitions(ctx context.Context, state *groupState) map[string][]int32 {
